@@ -15,6 +15,8 @@ From Coq Require Import List NArith ZArith.
 From DSD Require Import Base.Str Base.Errors Model.ComplexUtils Model.ReaderStr Model.Peg Model.Heap Model.Registry
   Model.Reader Model.ReaderShape Proofs.RegInv Proofs.ReaderBasic Proofs.ReaderStmt Proofs.ReaderHeap Proofs.ReaderInv
   Proofs.ReaderHoare Proofs.ReaderNoFault Proofs.ReaderThms Proofs.ReaderBuilds Proofs.ReaderExamples.
+From DSD Require Import Base.Val Model.ReaderConsistent Model.DispatchReader Proofs.ReaderSysA Proofs.ReaderSysI
+  Proofs.ReaderSysJ Proofs.ReaderSysK Proofs.ReaderSysL.
 From DSD Require Model.Iupac.
 From DSDGen Require Import ReaderConsts.
 Import ListNotations.
@@ -387,3 +389,109 @@ Theorem C14_reader_builds_reaction_members : forall ct cd cs cc cm cr,
        Forall2 (MemberIs (member_cls cc cm ri) (r_st r')) (ri_products ri) pr).
 Proof. exact reader_builds_reaction_members. Qed.
 Print Assumptions C14_reader_builds_reaction_members.
+
+(* ---- the assembled statement: consistent systems ----
+   `adm prev s` (Proofs/ReaderSysJ.v): the statement s may follow the statements prev - its name is new
+   (domains: unstarred, non-empty, length >= 0, a valid nucleotide sequence if one is given), everything it
+   uses is declared in prev (strands: domains x or x* of declared x; kernel complexes: such domains, declared
+   strands or their complement names; complexes in strand notation: declared strands; macrostates:
+   declared complexes, one of which carries the name; reactions: macrostates if `condensed`, complexes
+   otherwise, at least one reactant), and the object it denotes differs from the earlier ones of its kind
+   (strands: another domain sequence; complexes: no rotation in common, rot_disjoint; macrostates: another
+   sorted list of canonical forms, mac_sig; reactions: another canonical form and another name, rxn_sig).
+   `Consistent ss`: every statement is admissible after the ones before it.  `consistentb` is the same as a
+   computation (Model/ReaderConsistent.v); the op "reader_consistent" evaluates it on every generated
+   system of the correspondence run.
+   `Built r out s` (Proofs/ReaderSysA.v): the exact objects statement s has built in the heap of r, filed
+   in `out` under its name - domains: x and x* with the declared length (and sequence / reverse
+   complement); strands: the listed domain objects; complexes: the elements, the structure, every rotation
+   as a key, the smallest as canonical form, the concentration; macrostates: the listed complexes, the
+   sorted canonical forms; reactions: members sorted by canonical form, type, rate constant and units.
+   `Reads lines ss r out`: every statement is Built, every key of the result belongs to a statement, every
+   filed reaction belongs to a reaction statement, and `other` is the list of the remaining lines.
+   The (sequence, structure) a complex statement denotes is computed from the statements before it
+   (Model/ReaderConsistent.v): expand_ker for kernel strings - a name is '+', a declared domain, the domains of
+   a declared strand (composite domain) or the reversed complements of the domains of the strand whose
+   complement name it is, each with the structure character of its position; ssc_names for strand notation -
+   the domain names of the named strands joined by '+'.  rd_cplx: the complex filed under the name has exactly
+   that sequence (as domain objects / '+') and structure, every rotation as a key and the smallest as
+   canonical form. *)
+Theorem C14_consistent_system_never_refused : forall ct cd cs cc cm cr,
+  cfg_okb ct cd cs cc cm cr = true ->
+  (forall c, In c [cd; cs; cc; cm; cr] -> exists ci, nth_error ct c = Some ci /\ c_fail ci = FNone) ->
+  forall lines ss,
+  Forall2 (fun l s => decode l = Ok s) lines ss -> Consistent ss ->
+  exists r out, read_pil ct (g cd cs cc cm cr) None (map TList lines) (rinit (init ct 0)) = (r, Ok out) /\
+                Reads cd cs cc cm cr lines ss r out.
+Proof. exact consistent_system_never_refused. Qed.
+Print Assumptions C14_consistent_system_never_refused.
+
+(* one statement: read in a session that satisfies the invariant of a consistent prefix, an admissible
+   statement is read without error and the invariant holds for the longer prefix *)
+Theorem C14_admissible_statement_is_read : forall ct cd cs cc cm cr,
+  cfg_okb ct cd cs cc cm cr = true ->
+  (forall c, In c [cd; cs; cc; cm; cr] -> exists ci, nth_error ct c = Some ci /\ c_fail ci = FNone) ->
+  forall prev r acc line s,
+  SInv cd cs cc cm cr ct prev r acc -> decode line = Ok s -> adm prev s ->
+  exists r' acc', read_one ct (g cd cs cc cm cr) None (TList line) acc r = (r', Ok acc') /\
+    SInv cd cs cc cm cr ct (prev ++ [s]) r' acc' /\
+    po_other acc' = po_other acc ++ match s with SOther => [line] | _ => [] end.
+Proof. exact step_stmt. Qed.
+Print Assumptions C14_admissible_statement_is_read.
+
+Theorem C14_consistentb_sound : forall ss, consistentb ss = true -> Consistent ss.
+Proof. exact consistentb_sound. Qed.
+Print Assumptions C14_consistentb_sound.
+
+(* the assembled reader_builds: the statements of the parsed document computed by decode_all, their
+   consistency computed by consistentb *)
+Theorem C14_reader_builds : forall ct cd cs cc cm cr,
+  cfg_okb ct cd cs cc cm cr = true ->
+  (forall c, In c [cd; cs; cc; cm; cr] -> exists ci, nth_error ct c = Some ci /\ c_fail ci = FNone) ->
+  forall lines ls ss,
+  decode_all lines = Some (ls, ss) -> consistentb ss = true ->
+  exists r out, read_pil ct (g cd cs cc cm cr) None lines (rinit (init ct 0)) = (r, Ok out) /\
+                Reads cd cs cc cm cr ls ss r out.
+Proof. exact reader_builds. Qed.
+Print Assumptions C14_reader_builds.
+
+(* frame: each dictionary of the result holds exactly the declared names of its kind (a domain declares its name and the complement name) *)
+Theorem C14_result_keys_are_the_declared_names : forall cd cs cc cm cr ls ss r out k n,
+  Reads cd cs cc cm cr ls ss r out -> k <> KindR ->
+  (In n (map fst (dict_of k out)) <-> In n (declared k ss)).
+Proof. exact reads_keys_exact. Qed.
+Print Assumptions C14_result_keys_are_the_declared_names.
+
+(* any declaration-respecting order: if the system `sys` is written in the consistent order ss, every
+   statement of sys has built its objects and the keys of the result are the names sys declares *)
+Theorem C14_reader_builds_any_order : forall ct cd cs cc cm cr,
+  cfg_okb ct cd cs cc cm cr = true ->
+  (forall c, In c [cd; cs; cc; cm; cr] -> exists ci, nth_error ct c = Some ci /\ c_fail ci = FNone) ->
+  forall lines ls ss sys,
+  Permutation sys ss -> decode_all lines = Some (ls, ss) -> consistentb ss = true ->
+  exists r out, read_pil ct (g cd cs cc cm cr) None lines (rinit (init ct 0)) = (r, Ok out) /\
+    (forall s, In s sys -> Built cd cs cc cm cr r out s) /\
+    (forall k n, k <> KindR -> (In n (map fst (dict_of k out)) <-> exists s, In s sys /\ In n (declared k [s]))).
+Proof. exact reader_builds_any_order. Qed.
+Print Assumptions C14_reader_builds_any_order.
+
+(* with the library's own classes in the slots *)
+Theorem C14_reader_builds_base : forall lines ls ss,
+  decode_all lines = Some (ls, ss) -> consistentb ss = true ->
+  exists r out, read_pil base_ctable base_g None lines (rinit (init base_ctable 0)) = (r, Ok out) /\
+    Reads 0 2 1 3 4 ls ss r out.
+Proof. exact reader_builds_base. Qed.
+Print Assumptions C14_reader_builds_base.
+
+(* what the op "reader_consistent" answers on the generated systems is the hypothesis of the theorem *)
+Theorem C14_reader_consistent_accepts : forall text,
+  reader_consistent text = VBool true ->
+  exists lines r out, parse_lines text = Ok lines /\
+    read_pil base_ctable base_g None lines (rinit (init base_ctable 0)) = (r, Ok out).
+Proof. exact reader_consistent_accepts. Qed.
+Print Assumptions C14_reader_consistent_accepts.
+
+(* not vacuous: a document with every kind of statement is consistent *)
+Theorem C14_example_system_is_consistent : reader_consistent ex_sys = VBool true.
+Proof. exact ex_sys_consistent. Qed.
+Print Assumptions C14_example_system_is_consistent.
